@@ -1,8 +1,8 @@
 (* C11 -- Binary-to-text and wire codecs are exact inverses on their whole domain.
    Statements only; every proof is [exact <lemma>] with Print Assumptions beneath. *)
 From Coq Require Import NArith ZArith Arith List.
-From BU Require Import Base.Exn Base.Bytes Gen.Consts Model.Base58 Model.Base58Xmr Model.Codecs Model.IntBytes.
-From BU Require Lemmas.Base58 Lemmas.ConstsOk Lemmas.XmrConstsOk Lemmas.IntBytes Lemmas.ConvertBitsOk Lemmas.Base32 Lemmas.Base32Ok.
+From BU Require Import Base.Exn Base.Bytes Gen.Consts Gen.CodecConsts Model.Base58 Model.Base58Xmr Model.Codecs Model.IntBytes.
+From BU Require Lemmas.Base58 Lemmas.ConstsOk Lemmas.XmrConstsOk Lemmas.IntBytes Lemmas.ConvertBitsOk Lemmas.Base32 Lemmas.Base32Ok Lemmas.SS58Ok.
 Import ListNotations.
 Open Scope N_scope.
 
@@ -268,3 +268,61 @@ Theorem b32_encode_standard : forall b custom s, bytes_ok b -> b32_custom_ok cus
         repeat Base32.rfc_pad (Lemmas.Base32.padcount (length ds)).
 Proof. exact Base32Ok.b32_encode_standard. Qed.
 Print Assumptions b32_encode_standard.
+
+(* with a custom alphabet the decoder accepts no character outside that alphabet and '=' *)
+Theorem b32_decode_custom_foreign : forall s c ch, In ch s -> ~ In ch c -> ch <> Base32.rfc_pad ->
+  Codecs.b32_decode s (Some c) = Err ValueError.
+Proof. exact Base32Ok.b32_decode_custom_foreign. Qed.
+Print Assumptions b32_decode_custom_foreign.
+
+(* ------------------------------------------------------------------ SS58 *)
+(* blake2b-512 is an oracle; the theorems assume only that its output has 64 bytes.
+   The 14-bit format packing is decided by exhaustive kernel computation: all 16384 formats forwards,
+   all 256 + 65536 one-/two-byte prefixes backwards (Lemmas/SS58Ok.v), lifted with forallb_forall. *)
+
+Theorem ss58_bounds : ss58_format_max = 16383 /\ ss58_simple_max = 63 /\ ss58_reserved = [46; 47] /\
+                      ss58_data_len = 32%nat /\ ss58_cklen = 2%nat.
+Proof. exact SS58Ok.ss58_bounds. Qed.
+Print Assumptions ss58_bounds.
+
+(* all formats 0..16383 except the reserved 46/47, all 32-byte payloads *)
+Theorem ss58_roundtrip : forall (blake2b512 : list N -> list N) data fmt,
+  (forall x, length (blake2b512 x) = 64%nat) -> (forall x, bytes_ok (blake2b512 x)) ->
+  bytes_ok data -> length data = ss58_data_len ->
+  (0 <= fmt <= Z.of_N ss58_format_max)%Z -> ~ In (Z.to_N fmt) ss58_reserved ->
+  exists s, Codecs.ss58_encode blake2b512 data fmt = Ok s /\
+            Codecs.ss58_decode blake2b512 s = Ok (Z.to_N fmt, data).
+Proof. intros blake data fmt H1 H2. apply SS58Ok.ss58_roundtrip; assumption. Qed.
+Print Assumptions ss58_roundtrip.
+
+Example ss58_roundtrip_ex : (0 <= 1284 <= Z.of_N ss58_format_max)%Z /\ ~ In (Z.to_N 1284) ss58_reserved.
+Proof. split; [vm_compute; split; discriminate|]. intro H. apply Base.Bytes.memb_In in H. vm_compute in H. discriminate. Qed.
+Print Assumptions ss58_roundtrip_ex.
+
+(* canonicity and exact acceptance: the decoder accepts precisely the encoder's image *)
+Theorem ss58_encode_decode : forall (blake2b512 : list N -> list N) s f data,
+  (forall x, length (blake2b512 x) = 64%nat) -> (forall x, bytes_ok (blake2b512 x)) ->
+  Codecs.ss58_decode blake2b512 s = Ok (f, data) ->
+  Codecs.ss58_encode blake2b512 data (Z.of_N f) = Ok s /\ bytes_ok data /\ length data = ss58_data_len /\
+  f <= ss58_format_max /\ ~ In f ss58_reserved.
+Proof. intros blake s f data H1 H2. apply SS58Ok.ss58_encode_decode; assumption. Qed.
+Print Assumptions ss58_encode_decode.
+
+Theorem ss58_accepts_iff : forall (blake2b512 : list N -> list N) s f data,
+  (forall x, length (blake2b512 x) = 64%nat) -> (forall x, bytes_ok (blake2b512 x)) ->
+  (Codecs.ss58_decode blake2b512 s = Ok (f, data) <->
+   (Codecs.ss58_encode blake2b512 data (Z.of_N f) = Ok s /\ bytes_ok data)).
+Proof. intros blake s f data H1 H2. apply SS58Ok.ss58_accepts_iff; assumption. Qed.
+Print Assumptions ss58_accepts_iff.
+
+(* the decoder fails only with ValueError or SS58ChecksumError (no IndexError: former defect F3) *)
+Theorem ss58_decode_err : forall (blake2b512 : list N -> list N) s e,
+  Codecs.ss58_decode blake2b512 s = Err e -> e = ValueError \/ e = LibError SS58ChecksumError.
+Proof. exact SS58Ok.ss58_decode_err. Qed.
+Print Assumptions ss58_decode_err.
+
+Theorem ss58_f3_rejected :
+  Codecs.ss58_parse_header [] = Err ValueError /\ Codecs.ss58_parse_header [64] = Err ValueError /\
+  Codecs.ss58_parse_header [128; 0] = Err ValueError /\ Codecs.ss58_parse_header [65; 64] = Err ValueError.
+Proof. exact SS58Ok.ss58_f3_rejected. Qed.
+Print Assumptions ss58_f3_rejected.
